@@ -54,6 +54,9 @@ def compile_(src, lang):
     return _compile_cached(hashlib.sha256(src).hexdigest(), lang, src)
 
 
+KW_ENDIF_BRACE = re.compile(rb'\b(do|else)\b[ \t]*(?://[^\n]*|/\*[^\n]*?\*/)?[ \t]*\r?\n(?:[ \t]*\r?\n)*[ \t]*#[ \t]*endif\b[^\n]*\n\s*\{')
+
+
 def judge(case):
     lang = case.lang
     rc0, asm0, err0 = compile_(case.src, lang)
@@ -66,8 +69,11 @@ def judge(case):
     mods = sorted(n for n in case.cfgd if n.startswith('mod_'))
 
     def fail(cls, detail, out=b''):
+        # (part of the signature: does the - minimised - program hold a conditional group that ends between `do` / `else` and its block?)
+        m = KW_ENDIF_BRACE.search(case.src)
+        tag = (' kw-endif-brace:' + m.group(1).decode()) if m else ''
         fails.append(('compile-equivalence', {'class': cls, 'at': [lang], 'got': [detail[:60]], 'index': 0, 'in': [core.preview(case.src, 300)],
-                                              'out': [core.preview(out, 300), detail], 'first_in': lang, 'first_out': detail[:120]}))
+                                              'out': [core.preview(out, 300), detail], 'first_in': lang + tag, 'first_out': detail[:120]}))
     changed = False
     if not r.ok:
         fail('uncrustify-refuses-valid-program', 'exit %s signal %s: %s' % (r.status, r.signal, r.err[-160:].decode('utf-8', 'replace')))
